@@ -55,8 +55,15 @@ def run(ctx, col, tier):
 
     # ---- R-EXC: explicit raise sites + the decode error of the iteration
     raises = [n for n in own_nodes(p) if isinstance(n, ast.Raise)]
-    if len(raises) < 2:
-        raise AnalysisError("anchor-vanished: the `invalid row` / decode-error raises of parse_swc")
+    # the loop over the file handle must be able to fail loudly at all: a try around it whose handler
+    # completes normally, or no raise for an unclassifiable line, is decided below (R-EXC / R-CLASSIFY)
+    for t in [n for n in own_nodes(p) if isinstance(n, ast.Try)]:
+        for h in t.handlers:
+            col.check(exc.body_always_raises(h.body), "R-EXC", p.qualname, p.loc(h),
+                      f"handler `except {norm_src(h.type) if h.type else ''}` around the read loop re-raises on every path",
+                      "", f"`except {norm_src(h.type) if h.type else ''}` can complete without raising: after a failure in the middle "
+                      f"of the file the rows read so far are returned as if they were the whole table",
+                      stmt=f"handler:{norm_src(h.type) if h.type else ''}")
     for r in raises:
         exc.check_raise_reaches(ctx, col, "R-EXC", p, r, exc.exc_class_name(r.exc), ENTRIES,
                                 f"raise {exc.exc_class_name(r.exc)} reaches the caller")
